@@ -17,9 +17,9 @@ def skel_typed_methods(skel, name, concrete):
     out = {}
     pat = re.compile(r'^%s<(?:C,)?(\w+)>$' % re.escape(name))
     for it in skel.get('items', []):
-        if it['k'] == 'impl' and it['trait'] is None:
+        if it['k'] == 'impl' and it['trait'] is None and 'S' not in it['generics']:
             m = pat.match(it['self'])
-            if m and m.group(1) != 'S':
+            if m:
                 out.setdefault(m.group(1), [])
                 for f in it['fns']:
                     if 'name' in f:
